@@ -1195,7 +1195,7 @@ def run(tier):
         seen[f['key']] = f
         uniq.append(f)
     unknown = [f for f in uniq if not chk.known(f.get('key', ''))]
-    for f in unknown[:5]:
+    for f in unknown[:8]:
         chk.violation(f['msg'], {'case': f, 'replay_cmd': './check C14 --replay <this file>'}, True)
     if not unknown and (broken or disagreements):
         chk.violation('proof obligation or correspondence no longer checks: ' + '; '.join(broken[:3] + [d['msg'][:200] for d in disagreements[:2]]),
